@@ -30,6 +30,13 @@ fn cfg(d: &mut Dna, explicit_bounds: bool) -> GenCfg {
     c.min_variants = 1;
     c.min_type_params = if d.chance(80) { 1 } else { 0 };
     c.min_fields = 1;
+    // a stand-alone Eq now and then: the only request under which a field type may mention `Self` (see prepare_with)
+    if d.chance(5) {
+        c.must = vec![Tr::Eq];
+        c.pool = vec![Tr::Eq];
+        c.kinds = vec![Kind::Struct, Kind::Enum];
+        c.min_type_params = 1;
+    }
     c
 }
 
@@ -275,9 +282,35 @@ pub fn prepare_with(dna: &[u16], explicit_bounds: bool) -> Option<Case> {
     let mut d = Dna::new(dna);
     let c = cfg(&mut d, explicit_bounds);
     let built = gen::build(&mut d, &c);
-    let s = built.spec;
+    let mut s = built.spec;
     if s.gens.is_empty() || s.variants.is_empty() {
         return None;
+    }
+    // a field whose type mentions `Self` next to a parameter. Only under a stand-alone Eq: every other automatic
+    // where-clause would have to prove `Self: Trait` from itself (a cycle rustc reports as an overflow), which is why
+    // C01 leaves such types out; here the hand-written PartialEq is unconditional, so the predicate is decidable
+    let mut self_field = false;
+    if s.kind != Kind::Union && s.traits.len() == 1 && s.traits[0].tr == Tr::Eq && !s.gens.types.is_empty() {
+        if let Some(vi) = s.variants.iter().position(|v| v.shape != Shape::Unit) {
+            if s.gens.lifetimes.is_empty() {
+                s.gens.lifetimes.push(("sr".to_string(), vec![]));
+            }
+            let lt = s.gens.lifetimes[0].0.clone();
+            let tp = d.choose(&s.gens.types).clone();
+            let name = if s.variants[vi].shape == Shape::Named { Some("selfref".to_string()) } else { None };
+            let ty = FTy {
+                src: format!("Option<(&'{lt} Self, {})>", tp.name),
+                inst: format!("Option<(&'static {}, {})>", s.inst_ty(), tp.inst),
+                vals: vec!["None".to_string()],
+                caps: 0,
+                params: vec![tp.name.clone(), format!("'{lt}")],
+                refs: 0,
+                default_val: None,
+                clone_methods: vec![],
+            };
+            s.variants[vi].fields.push(FieldSpec { name, ty, attrs: vec![], split: 0, raw: vec![], default_expect: None, noise: vec![] });
+            self_field = true;
+        }
     }
     let known = check::load_known();
     if crate::known::pre_matches(&known, "C01", &s) {
@@ -340,6 +373,7 @@ pub fn prepare_with(dna: &[u16], explicit_bounds: bool) -> Option<Case> {
                 for l in &s.gens.lifetimes {
                     fty = fty.replace(&format!("'{}", l.0), "'static");
                 }
+                fty = subst_param(&fty, "Self", &ty);
                 for p in &ps {
                     let m = sigma.iter().find(|(n, _)| n == p).map(|(_, m)| *m).unwrap_or("Yes");
                     fty = subst_param(&fty, p, m);
@@ -378,6 +412,9 @@ pub fn prepare_with(dna: &[u16], explicit_bounds: bool) -> Option<Case> {
     }
     if unconstrained {
         classes.push("parameter_only_in_undelegated_positions".into());
+    }
+    if self_field {
+        classes.push("field_type_mentions_Self".into());
     }
     let explicit = s.traits.iter().any(|a| matches!(a.bound(), Some(BoundV::All) | Some(BoundV::Custom(_)) | Some(BoundV::False)));
     if explicit_bounds && !explicit {
